@@ -304,6 +304,14 @@ C02_CPP_ENUM_ASSUME = ["the emitted to_json / from_json bodies and symbol table 
                        "zz_c02_cppenum.go (transcribed from tooling/internal/cpp/include/yardl.h.tmpl)", "generated enumerators are named k<PascalCase symbol> (types emitter convention)",
                        "flag / enum literal values are concrete per path (math/big is modelled for concrete values only); the serialized value v is a symbolic bit-vector"]
 
+C02_NULLFORM_PART = (G, "gosym_part", dict(name="c02_nullable_union_null_forms", entry="internal/zzverif.C02Union", args_quick=(2, 1, 1), args_thorough=(2, 1, 0), key_fn=None,
+                               required_sites=("cpp-python-agree", "cpp-tagged-nullable-union-reads-bare-null"),
+                               desc="nullable unions of 2 symbolic cases: same tagging decision in both generators, and the emitted C++ reader of a tagged nullable union takes a bare JSON null "
+                                    "(the Python writer's rendering of the null case) as the null case before looking for a tag; the converse (Python reading the C++ rendering {\"<tag>\": null}) "
+                                    "is an obligation of c02_py_converters",
+                               assumptions=["JSON kind table transcribed from docs/reference/ndjson.md (harness specKinds)",
+                                            "the null-guard is recognised textually in the emitted from_json body (if (j.is_null()) { value = std::monostate{}; return; } before j.begin())"]))
+
 PARTS = {
     "C08": [
         (G, "gosym_part", dict(name="c08_python_package", entry="internal/zzverif.C08PythonPackage",
@@ -466,6 +474,7 @@ PARTS = {
     "C03": [
         (PY, "c03_py_capacity", dict()),
         (PY, "c02_py_converters", dict()),   # NDJSON converters + NDJsonProtocolReader line look-ahead (binary <-> NDJSON copies)
+        C02_NULLFORM_PART,   # both languages read both renderings of the null case of a tagged nullable union
         C14_PART,
         C02_UNION3_PART,
     ],
@@ -524,6 +533,7 @@ PARTS = {
     ],
     "C02": [
         (PY, "c02_py_converters", dict()),
+        C02_NULLFORM_PART,
         (G, "gosym_part", dict(name="c02_union_tagging", entry="internal/zzverif.C02Union", args_quick=(2, 0, 0), args_thorough=(3, 1, 0),
                                extra_thorough=("-max-paths", "400000"), key_fn=c02_key,
                                required_sites=("cpp-python-agree", "python-untagged-only-if-unambiguous", "python-tagged-only-if-ambiguous",
@@ -568,6 +578,12 @@ PARTS = {
                                desc="chains within the limit are accepted")),
     ],
     "C12": [
+        (G, "gosym_part", dict(name="c12_diagnostics_map_order", entry="internal/zzverif.C12DiagnosticsMapOrder", args_quick=(2, 12), args_thorough=(2, 12),
+                               required_sites=("invalid-model-is-rejected-with-several-errors", "every-map-range-covered", "diagnostics-independent-of-map-iteration-order"),
+                               assumptions=["map iteration order is a path decision (verifSetMapOrder(-2-i)): one range of the validation passes at a time iterates in another order; "
+                                            "natively Go randomises the order, so a reported dependence is confirmed by repeating the run up to 64 times"],
+                               desc="real dsl.Validate on an invalid two-namespace model with about 20 errors, several at the same source position and collected through maps (enum symbols sharing a "
+                                    "value, duplicate names / fields / steps / union cases, unknown types): the rendered error text is identical when any one map range iterates in a different order")),
         (G, "gosym_part", dict(name="c12_error_order", entry="internal/zzverif.C12ErrorOrder", args_quick=(2,), args_thorough=(3,),
                                required_sites=("errors-order-independent",),
                                desc="ErrorSink.AsError on n symbolic diagnostics (file, optional line/column >= 1, message) recorded in two different orders: "
@@ -648,13 +664,18 @@ PARTS = {
                                assumptions=C20_ASSUME,
                                desc="the real dedupLoop with a patient editor (waits for the watcher to go idle between saves; args: saves, impatient=0, preemptions=0): every sequence "
                                     "of saves over {3 valid contents, 1 invalid}; validates the seams natively against a real fsnotify watcher")),
-        (G, "gosym_part", dict(name="c20_interleaved", entry="internal/cmd.VerifC20", args_quick=(2, 1, 1), args_thorough=(2, 1, 2),
+        (G, "gosym_part", dict(name="c20_interleaved", entry="internal/cmd.VerifC20", args_quick=(2, 1, 1), args_thorough=(3, 1, 1),
                                extra_quick=("-replay-sample", "4", "-max-paths", "200000"), extra_thorough=("-replay-sample", "8", "-max-paths", "3000000"),
                                required_sites=("converged-to-one-shot-output", "invalid-final-contents-leave-output-untouched", "watcher-keeps-running"),
                                assumptions=C20_ASSUME,
                                desc="the same with an impatient editor: every interleaving of editor, debounce-timer firings and in-flight regenerations at channel / timer / mutex / "
                                     "file-system operations within the preemption bound (args: saves, impatient=1, preemptions); after quiescence the output equals a one-shot generateImpl "
                                     "on the final contents and no goroutine has crashed")),
+        (G, "gosym_part", dict(name="c20_interleaved_2", entry="internal/cmd.VerifC20", args_quick=(2, 1, 2), args_thorough=(2, 1, 2), tiers=("thorough",),
+                               extra_quick=("-replay-sample", "4", "-max-paths", "3000000"), extra_thorough=("-replay-sample", "4", "-max-paths", "3000000"),
+                               required_sites=("converged-to-one-shot-output", "invalid-final-contents-leave-output-untouched", "watcher-keeps-running"),
+                               assumptions=C20_ASSUME,
+                               desc="two saves, every interleaving within TWO preemptions (about 20 000 schedules)")),
         (G, "gosym_part", dict(name="c20_import_sequential", entry="internal/cmd.VerifC20Import", args_quick=(0, 0), args_thorough=(0, 0),
                                extra_quick=("-replay-sample", "4"), extra_thorough=("-replay-sample", "8"),
                                required_sites=("converged-to-one-shot-output", "cwd-is-package-dir-when-idle", "watcher-keeps-running"),
@@ -702,7 +723,7 @@ CLAIMS = {
                      "editor, debounce-timer firings and in-flight regenerations within the preemption bound, once everything is quiescent the output file equals what a one-shot generateImpl "
                      "produces for the final contents, invalid final contents leave the output untouched, and no regeneration goroutine has crashed. The unguarded overlap of regenerations "
                      "(a slow one overwriting the output of a newer one) was found this way, confirmed natively against the real watcher, and repaired (fix: 32002f5).",
-                note="Bounded: 2 saves x 1 preemption (quick), 2 preemptions / 3 saves (thorough); single package, JSON target; koanf config sharing and the process cwd across imported "
+                note="Bounded: 2 saves x 1 preemption (quick), 3 saves x 1 preemption and 2 saves x 2 preemptions (thorough); import scenario 4 saves x 1 preemption (thorough, about 230 000 schedules, ~1 h); single package, JSON target; koanf config sharing and the process cwd across imported "
                      "packages are behind stubs; native confirmation relies on timing (bulky model), not on an imposed schedule."),
     "C08": dict(text="Bounded symbolic execution (gosym) of the complete real Python generator for a two-namespace model under every generateNDJson / has-protocols combination: "
                      "no panic, and the generated package is self-consistent (every own-package module an __init__.py imports was written). Panic-freedom of the type-mapping layers "
